@@ -456,6 +456,19 @@ func TestDriver(t *testing.T) {
 			_ = st.RemoveODSQ4(ctx, b.Height, b.Roots.Hash())
 		}
 	}
+	// replay of one recorded violation (bin/check C11 --replay <file>): the block of the violation, all queries
+	if p := os.Getenv("VERIF_REPLAY_CASE"); p != "" {
+		var rp struct {
+			Case blobsq.Case `json:"case"`
+		}
+		if err := vh.ReadJSON(p, &rp); err != nil {
+			t.Fatalf("replay: %v", err)
+		}
+		storeEvery = 1
+		serve(rp.Case, len(rp.Case.Segs) > 0)
+		rep.Set("replayed", rp.Case)
+		return
+	}
 	for _, c := range cases {
 		serve(c, true)
 	}
